@@ -24,7 +24,7 @@ META = {
     'assumptions': ['arguments are dictionary keys and therefore realised: solver-enumerated finite domains'],
 }
 
-SEEDS_Q = ['CCO', 'C1CC1C', 'C[C@H](N)O', 'F/C=C/Cl', 'CC(=O)O', 'CC.OC']
+SEEDS_Q = ['CCO', 'C1CC1C', 'C[C@H](N)O', 'F/C=C/Cl', 'CC(=O)O', 'CC.OC', 'CN~[Cu]']
 SEEDS_X = ['C1CCCCC1C', 'C=CC=C', 'C1CC1C1CC1', 'CC[N+](C)(C)[O-]']
 SEEDS_T = SEEDS_Q + SEEDS_X + ['C1CC2CC1C2', 'C[C@H]1CC[C@@H](O)O1', 'FC=[C@]=CCl', 'OCC(O)CO', 'C#CC=C', 'CS(=O)(=O)C', 'C1CCC1CC=O']
 
@@ -39,6 +39,7 @@ def views(m):
                       tuple(sorted(a.ring_sizes)), a.hybridization, a.neighbors, a.heteroatoms, a.stereo)
                   for n, a in m.atoms()},
         'bonds': {(min(x, y), max(x, y)): (b.order, bool(b.in_ring), b.stereo) for x, y, b in m.bonds()},
+        'chiral': (sorted(m.chiral_tetrahedrons), sorted(m.chiral_cis_trans), sorted(m.chiral_allenes)),
         'adjacency_symmetric': all(m._bonds[y][x] is b for x, nb in m._bonds.items() for y, b in nb.items()),
     }
     if all(a.implicit_hydrogens is not None for _, a in m.atoms()):
